@@ -536,7 +536,11 @@ func runScenario(s *Scenario, bin string) *result {
 		dir = d
 	}
 	res.Dir = dir
-	defer os.RemoveAll(dir)
+	if os.Getenv("C03_KEEP") == "" { // debugging aid: keep the scenario directory (logs, files, offsets)
+		defer os.RemoveAll(dir)
+	} else {
+		fmt.Println("  keeping", dir)
+	}
 	r := &runner{s: s, bin: bin, dir: dir, res: res, outDir: filepath.Join(dir, "out"), phase: "pre"}
 	r.cur = make([]int, s.NFiles)
 	r.rotN = make([]int, s.NFiles)
